@@ -10,17 +10,18 @@
    Optional dict members need not be satisfiable. *)
 From Coq Require Import PrimFloat Permutation.
 Require Import D42.Prelude D42.PyFloat D42.Value D42.Regex D42.Schema D42.Validate D42.Conforms
-               D42.PyRandom D42.RegexGen D42.Generate.
+               D42.PyRandom D42.RegexGen D42.ReSupported D42.Generate.
 Require Import D42Gen.GenConsts.
 Open Scope Z_scope.
 
 Definition world_ok (w : world) : Prop :=
   uuid_is_v4 (w_uuid w) = true /\ forall l, Permutation (w_perm w l) l.
 
-(* the regex generator returns a string for every tape (no unsupported construct can be
-   reached, no negated class exhausts the letters) *)
-Definition re_total (w : world) (p : list re) : Prop :=
-  forall t, exists s t', gen_re (default_cfg (Z.of_N RE_MAX_REPEAT)) (w_perm w) p t = Ok (s, t').
+(* the pattern is one on which the regex generator returns a string for every tape: no
+   unsupported construct anywhere, every class / negated class / branch has a candidate, repeat
+   ranges are non-empty (decidable: theories/ReSupported.v; totality: proofs/RegexGenTotal.v) *)
+Definition re_total (p : list re) : bool :=
+  forallb (re_supported (default_cfg (Z.of_N RE_MAX_REPEAT))) p.
 
 (* with a precision: int(lo * 10**p) .. int(hi * 10**p) is a (non-empty) range of ints *)
 Definition prec_ok (lo hi : float) (p : Z) : bool :=
@@ -56,7 +57,7 @@ Definition sat_str (w : world) (val : option pystr) (len mnl mxl : option intv) 
   | None =>
       match pat with
       | Some (_, p) =>
-          len = None /\ mnl = None /\ mxl = None /\ al = None /\ sub = None /\ re_total w p
+          len = None /\ mnl = None /\ mxl = None /\ al = None /\ sub = None /\ re_total p = true
       | None =>
           (* substr is written over the alphabet *)
           opt_holds al (fun a => opt_holds sub (fun t => Forall (fun c => In c a) t)) /\
